@@ -36,6 +36,11 @@ def run(tier):
         steps, mods = feat_repl.host_history(r2.fork(str(i)))
         plist.append({"name": "host/%d" % i, "steps": steps, "mods": mods})
 
+    r6 = ck.rng.fork("repeat")
+    for i in range(36 if quick else 1200 * common.TS):
+        steps, mods = feat_repl.repeat_history(r6.fork(str(i)))
+        plist.append({"name": "repeat/%d" % i, "steps": steps, "mods": mods, "budget": 9000000})
+        ck.count("repeated_failure_snippets", len(steps))
     r5 = ck.rng.fork("long")
     for i in range(40 if quick else 1500 * common.TS):
         steps, mods = feat_repl.long_history(r5.fork(str(i)))
